@@ -260,6 +260,19 @@ pub fn has_extension(path: &str) -> bool {
     matches!(name.rfind('.'), Some(i) if i > 0 && i + 1 < name.len())
 }
 
+/// `relative_require` without the extension of a Lua target.
+pub fn bare_require(from: &str, to: &str) -> String {
+    let text = relative_require(from, to);
+    if is_lua(to) {
+        match text.rfind('.') {
+            Some(i) => text[..i].to_owned(),
+            None => text,
+        }
+    } else {
+        text
+    }
+}
+
 /// Relative require string (explicit extension, `./` or `../` prefixed) from the
 /// directory of `from` to `to`.
 pub fn relative_require(from: &str, to: &str) -> String {
@@ -326,6 +339,9 @@ pub struct SourceFile {
     /// *entry*, so an alias inside a required module would depend on who requires it -
     /// resolution semantics are C15, not modelled here)
     pub use_alias: bool,
+    /// writes requires of Lua files without their extension (`require("./x")`), so that
+    /// resolution goes through the candidate list (x, x.luau, x.lua, x/init, ...)
+    pub bare: bool,
 }
 
 #[derive(Clone, Debug)]
@@ -355,6 +371,8 @@ impl Project {
             .map(|to| {
                 if src.use_alias {
                     require_text(&src.path, to, &self.aliases)
+                } else if src.bare {
+                    bare_require(&src.path, to)
                 } else {
                     relative_require(&src.path, to)
                 }
@@ -440,6 +458,7 @@ pub fn gen_project(rng: &mut Rng, knobs: &ProjectKnobs) -> Project {
             version: 0,
             requires: Vec::new(),
             use_alias: false,
+            bare: false,
         });
     }
     let bundle = if knobs.allow_bundle && rng.chance(2, 5) {
@@ -484,6 +503,33 @@ pub fn gen_project(rng: &mut Rng, knobs: &ProjectKnobs) -> Project {
             }
         }
     }
+    // some files write their requires without extension, when that is unambiguous in the
+    // initial tree (one file per stem, no directory named like the stem)
+    {
+        let stem_of = |p: &str| -> String {
+            match p.rfind('.') {
+                Some(i) if i > p.rfind('/').map(|x| x + 1).unwrap_or(0) => p[..i].to_owned(),
+                _ => p.to_owned(),
+            }
+        };
+        let all_paths: Vec<String> = sources.iter().map(|s| s.path.clone()).collect();
+        for i in 0..sources.len() {
+            if sources[i].requires.is_empty() || !rng.chance(1, 3) {
+                continue;
+            }
+            let unambiguous = sources[i].requires.iter().all(|t| {
+                if !is_lua(t) {
+                    return true;
+                }
+                let stem = stem_of(t);
+                all_paths.iter().filter(|p| stem_of(p) == stem).count() == 1
+                    && !all_paths.iter().any(|p| p.starts_with(&format!("{}/", stem)))
+            });
+            if unambiguous {
+                sources[i].bare = true;
+            }
+        }
+    }
     let mut other: Vec<FsEntry> = Vec::new();
     let mut aliases: Vec<AliasDef> = Vec::new();
     if bundle.is_some() && !input_is_file && rng.chance(1, 3) {
@@ -518,6 +564,7 @@ pub fn gen_project(rng: &mut Rng, knobs: &ProjectKnobs) -> Project {
                     version: 0,
                     requires: Vec::new(),
                     use_alias: false,
+                    bare: false,
                 });
             }
         };
